@@ -483,6 +483,16 @@ class LegacyRun:
         res = None
         handed_out = []                     # every result object returned so far, with the number of sweeps it covers
         for op in self.case["ops"]:
+            if op["op"] == "refused_warmup" and not first and Nb:
+                # a second request for a warm-up phase is refused; the caller catches the error and goes on sampling
+                ctx.fault("refused_call_then_continue")
+                try:
+                    g.sample(int(op["n"]), Nb)
+                    ctx.undecided("second warm-up request was not refused")
+                    return
+                except ValueError:
+                    del visits[:]
+                continue
             if op["op"] != "sample":
                 continue
             ctx.log("op", "sample", op["n"])
@@ -529,6 +539,10 @@ def gen_case(r, tier):
         sc["init_point_attr"] = r.randint(1, 5) if r.random() < 0.3 else 0
         for _ in range(r.randint(1, 3)):
             ops.append({"op": "sample", "n": r.randint(1, 8)})
+        if sc["Nb"] and r.random() < 0.5:
+            ops.insert(1, {"op": "refused_warmup", "n": r.randint(1, 5)})
+            if len(ops) == 2:
+                ops.append({"op": "sample", "n": r.randint(1, 6)})
     else:
         # scripted fakes for some blocks (exact control, no randomness)
         for b in sorted(sc["strategy"]):
